@@ -197,6 +197,9 @@ class CheckRun:
             f = {"qualname": rep.qualname, "file": rep.file, "lines": list(rep.lines), "sha256": rep.sha256,
                  "tier": "P", "paths": rep.paths, "obligations": rep.obligations, "proved": rep.proved,
                  "solver_ms": round(rep.solver_ms, 1), "wall_s": round(rep.wall_s, 2)}
+            inlined = sorted(k for k, v in (c.uses or {}).items() if v == "inline" and not k.startswith(("opaque.", "fn:")))
+            if inlined:
+                f["inlined_callees"] = inlined   # executed as part of this function's paths (their bodies are verified text too)
             if rep.error:
                 f["error"] = rep.error
                 self.failures.append(f"{rep.qualname}: {rep.error[:300]}")
